@@ -45,6 +45,7 @@ func verifC10ClientResponse(i int, chunked bool, w *verifClientWant) []byte {
 	d1, d2 := verifByte("status_digit"), verifByte("status_digit")
 	verifAssume(verifAnd(d1 >= '0', d1 <= '9'))
 	verifAssume(verifAnd(d2 >= '0', d2 <= '9'))
+	verifAssume(!verifAnd(d1 == '0', d2 == '4')) // 204 carries no body
 	b := verifBytes("body", 2)
 	w.status[i] = 200 + 10*int(d1-'0') + int(d2-'0')
 	w.body[i] = b
